@@ -116,6 +116,9 @@ func (w *World) verifyContractPass(con *Contract, clean map[string]bool) *Gen {
 	for _, fv := range fn.FreeVars {
 		v := declParam("fv_"+fv.Name(), fv.Type())
 		v.Loc = nil
+		if isCellType(fv.Type()) {
+			g.assume(fmt.Sprintf("(not (= %s 0))", v.T)) // the cell of a captured variable always exists
+		}
 		f.freeVars = append(f.freeVars, v)
 	}
 	if len(con.Params) > 0 && len(con.Params) != len(fn.Params) {
